@@ -67,6 +67,7 @@ package lfs
 //@   props C01 C08 C07 C04
 //@   requires @inv reader != nil
 //@   modifies fresh, ghost rrest[reader]
+//@   monitor lastdecodeerr[0] := result2
 //@   ensures result1 != nil && isfresh(vref(result1)) && rrest(result1) == old(rrest(reader))
 //@   ensures reads_ok(reader) ==> reads_ok(result1) && (result2 == nil || err_isdecode(result2))
 //@   ensures result2 == nil || err_isdecode(result2) ==> rrest(reader) == bsub(old(rrest(reader)), chunk(result1), len(old(rrest(reader))))
@@ -127,10 +128,14 @@ package lfs
 //@   ensures !err_cleanptr(result1)
 
 // The pointer-extension pipeline runs external programs: outside the proof.
+// (Checked against the body: an extension program that exits with an error makes
+// the whole pipeline return that error - its output is never taken for the
+// cleaned or smudged content.)
 //@ func pipeExtensions
 //@   assumed
 //@   props C01 C08
 //@   modifies all
+//@   at call (io.Closer).Close:1 assert err == nil
 
 // C07: strictness of the decoder.
 //@ func parseOid
@@ -483,10 +488,15 @@ package lfs
 //@   props C05
 //@   modifies fresh, fields s
 //@   ensures result ==> s.next != nil
+// An index entry is recorded under its blob id unless the very same pair of blob
+// id and name was recorded before - two entries of one path with different ids
+// (the staged blob and the all-zero id of a file modified again) are both kept.
 //@ func (*indexFileMap).Add
-//@   assumed
 //@   props C05
-//@   modifies fresh, map m.nameMap, map m.nameShaPairs
+//@   requires @inv m != nil && m.mutex != nil && m.nameMap != nil && m.nameShaPairs != nil && index != nil
+//@   modifies fresh, map m.nameMap, map m.nameShaPairs, ghost locked, ghost lockcount
+//@   ensures !(old(has(m.nameShaPairs, scat(scat(sha, ":"), index.Name))) && old(m.nameShaPairs[scat(scat(sha, ":"), index.Name)])) ==> len(m.nameMap[sha]) == old(len(m.nameMap[sha])) + 1 && m.nameMap[sha][old(len(m.nameMap[sha]))] == index
+//@   ensures old(has(m.nameShaPairs, scat(scat(sha, ":"), index.Name))) && old(m.nameShaPairs[scat(scat(sha, ":"), index.Name)]) ==> m.nameMap[sha] == old(m.nameMap[sha])
 
 //@ func NewPointerExtension
 //@   props C01 C07
